@@ -89,7 +89,7 @@ func shapeForC12(seed uint64, i int) MsgSpec {
 	r := sim.NewRand(sim.Derive(seed, 12, uint64(i)))
 	o := ShapeOpts{MaxAlt: 2, MaxEmbed: 2, MaxAttach: 2, MaxContent: 90, CRLFOnly: true,
 		Encs:     []string{"quoted-printable", "base64", "8bit", "7bit"},
-		FileEncs: []string{"", "base64", "8bit", "7bit"}, Sources: []string{"writer", "readseeker", "fs", "reader", "file", "tmpl"}, AllowSMIME: true}
+		FileEncs: []string{"", "base64", "8bit", "7bit"}, Sources: []string{"writer", "readseeker", "fs", "reader", "file", "tmpl", "htmpl"}, AllowSMIME: true}
 	tok := fmt.Sprintf("s%d", i)
 	txt := func(s string) ContentSpec { return ContentSpec{Data: []byte(s)} }
 	switch i {
@@ -388,6 +388,7 @@ func (p *c12) exec(t *testing.T, scAny any) Outcome {
 			}
 		}
 		out.stat("offsets.covered", covered)
+		out.statShape(healthy)
 		out.stat("offsets.total", full*len(sinkModes))
 		for j := 0; j < healthy.producerCount(); j++ {
 			wheres := []string{"start", "mid", "end"}
